@@ -530,10 +530,20 @@ func runTiming(in sx.Tree) sx.Tree {
 	k := kafkaconsumer.NewKafkaConsumerV(fake.NewConsumer(), topicName, out, 0, rc, ctx)
 	limit, burst := rc.LimiterParamsV()
 	every := rc.UpdateEveryV()
+	// optional 7th field: partition 1's request is short (to = short): it completes while partition 0 is still being
+	// recovered and the bucket is empty - the set of partitions under recovery changes, the limit must not
+	short := int64(0)
+	if in.Len() >= 7 && np >= 2 {
+		short = in.At(6).Int()
+	}
 	ps := []int64{}
 	for p := int64(0); p < np; p++ {
 		ps = append(ps, p)
-		rc.RequestRecovery(int32(p), 0, kafka.Offset(n+10))
+		to := n + 10
+		if short > 0 && p == 1 {
+			to = short
+		}
+		rc.RequestRecovery(int32(p), 0, kafka.Offset(to))
 	}
 	rc.SetAssignedPartitions(tps(ps))
 	_ = rc.RefreshAssignments()
@@ -588,6 +598,37 @@ func runTiming(in sx.Tree) sx.Tree {
 		}
 		return sx.T(sx.L(1), sx.L(int64(limit*1000+0.5)), sx.L(int64(burst)), sx.L(every), sx.L(elapsed.Microseconds()),
 			sx.L(mainDur.Microseconds()), sx.L(emitted), sx.L(mainEmitted))
+	}
+	if short > 0 {
+		// records of partitions 0 and 1 alternate until partition 1 has delivered its window and the record after it
+		// (which completes its request); the rest comes from partition 0: n records are inside a window
+		t0 := time.Now()
+		next := map[int64]int64{0: 1, 1: 1}
+		fed := int64(0)
+		for fed < n {
+			for _, p := range []int64{0, 1} {
+				if p == 1 && next[1] > short+1 {
+					continue
+				}
+				if fed >= n && !(p == 1 && next[1] == short+1) {
+					continue
+				}
+				rc.ProcessEventV(recMsg(p, next[p]))
+				if !(p == 1 && next[p] == short+1) {
+					fed++
+				}
+				next[p]++
+			}
+		}
+		elapsed := time.Since(t0)
+		emitted := int64(0)
+		for len(out) > 0 {
+			if ev := <-out; ev.Recovery {
+				emitted++
+			}
+		}
+		return sx.T(sx.L(1), sx.L(int64(limit*1000+0.5)), sx.L(int64(burst)), sx.L(every), sx.L(elapsed.Microseconds()),
+			sx.L(0), sx.L(emitted), sx.L(0))
 	}
 	t0 := time.Now()
 	for i := int64(0); i < n; i++ {
